@@ -15,8 +15,25 @@ TRUSTED = ["Python dict iteration order = insertion order"]
 ASSUMPTIONS = ["trees are well formed"]
 
 
-def one(rng):
+HIST = ["root_attach", "punctuation_root", "punctuation_verylow", "punctuation_symetrify", "heads+boyd_split+raising",
+        "punctuation_delete"]
+
+
+def one(rng, with_past=False):
     ts = gram.gen_treebank(rng)
+    past = []
+    if with_past:
+        # trees with a past: produced by a reader, looked at (gap degrees, a first extraction), changed in place since
+        import history
+        ts2 = []
+        for t in ts:
+            if t.data.get('label') != "VROOT":
+                ts2.append(t)          # export / TIGER-XML do not carry another root label
+                continue
+            t2, p = history.aged(rng, t, allowed=HIST)
+            past.append(p)
+            ts2.append(t2)
+        ts = ts2
     with quiet():
         g, lex = gram.extract_all(ts)
     enc = "|".join(proto.enc_tree(t) for t in ts)
@@ -25,8 +42,8 @@ def one(rng):
              Line("pred", "P.C06", [enc, gram.enc_grammar(g), gram.enc_lexicon(lex)])]
     disc = not grammaranalysis.is_contextfree(g)
     multi = any(c > 1 for f in g for l in g[f] for c in g[f][l].values())
-    return Case("treebank", {"trees": [proto.pretty_tree(t) for t in ts]}, lines, nontrivial=disc or multi,
-                tags=(["disc"] if disc else []) + (["count>1"] if multi else []))
+    return Case("treebank-with-past" if with_past else "treebank", {"trees": [proto.pretty_tree(t) for t in ts], "history": past},
+                lines, nontrivial=disc or multi, tags=(["disc"] if disc else []) + (["count>1"] if multi else []))
 
 
 def gen(seed, tier, scale):
@@ -34,4 +51,8 @@ def gen(seed, tier, scale):
     for _ in range((1200 if tier == "quick" else 30000) * scale):
         rng = case_rng(seed, ID, idx)
         yield idx, one(rng)
+        idx += 1
+    for _ in range((400 if tier == "quick" else 8000) * scale):
+        rng = case_rng(seed, ID, idx)
+        yield idx, one(rng, with_past=True)
         idx += 1
